@@ -41,6 +41,19 @@ fn counting_task(_args: &mut u8, seq: usize) -> bool {
     i < ACCEPT
   }
 }
+// virtual clock: should the code under test read the clock (the pinned RepeatTask does not), it
+// gets an arbitrary, monotonically non-decreasing instant instead of the unsupported clock_gettime
+static mut CLOCK_NS: u64 = 0;
+fn clock_stub() -> std::time::Instant {
+  unsafe {
+    let step: u32 = kani::any();
+    CLOCK_NS = CLOCK_NS.saturating_add(step as u64);
+    let secs = (CLOCK_NS / 1_000_000_000) as i64;
+    let nanos = (CLOCK_NS % 1_000_000_000) as u32;
+    // std::time::Instant is a (seconds: i64, nanoseconds: u32 < 1e9) pair on unix
+    std::mem::transmute::<(i64, u32), std::time::Instant>((secs, nanos))
+  }
+}
 fn noop_cx() -> Context<'static> {
   Context::from_waker(futures::task::noop_waker_ref())
 }
@@ -53,6 +66,7 @@ fn noop_cx() -> Context<'static> {
 #[kani::proof]
 #[kani::unwind(6)]
 #[kani::stub(new_timer, timer_stub)]
+#[kani::stub(std::time::Instant::now, clock_stub)]
 fn repeat_task_poll_step() {
   let period_ms: u16 = kani::any();
   let period = Duration::from_millis(period_ms as u64);
